@@ -274,8 +274,8 @@ class Ctx:
         cmd = [comp, "-std=" + std, opt, "-I" + os.path.join(REPO, "au", "code"), "-I" + HARNESS]
         for i in includes or []:
             cmd.append("-I" + i)
-        if not warn:
-            cmd.append("-w")
+        # NB: never pass -w: with g++ it also silences the narrowing *errors* the standard requires (they are "permerrors"), which would
+        # change accept/reject verdicts.  Warnings are simply ignored by the engine (only "error" lines are read).
         for d in defines or []:
             cmd.append("-D" + d)
         cmd += flags or []
@@ -316,7 +316,7 @@ class Ctx:
         with open(h, "w") as f:
             f.write(text)
         comp, std = CONFIGS[cfg]
-        base = [comp, "-std=" + std, opt, "-w", "-I" + os.path.join(REPO, "au", "code"), "-I" + HARNESS]
+        base = [comp, "-std=" + std, opt, "-I" + os.path.join(REPO, "au", "code"), "-I" + HARNESS]
         if comp == "g++":
             rc, out = sh(base + ["-x", "c++-header", h, "-o", h + ".gch"], timeout=600)
             return ["-include", h] if rc == 0 else ["-include", h]
